@@ -136,6 +136,10 @@ def job_specs(draw, max_tasks: int = 14, min_tasks: int = 0, max_outs: int = 4, 
     # and "task.output" is how a dataset id prints, so any encoding that goes through the printed form is ambiguous for them
     odd_names = draw(st.integers(0, 5)) == 0
     tname = (lambda k: (f"grp.t{k}" if k % 2 else f"n{k}.x.y")) if odd_names else (lambda k: task_name(k) if padded else f"t{k}")
+    if not odd_names and draw(st.integers(0, 7)) == 0:
+        # task names that are prefixes of one another (t1, t11, t111 ...): with numeric output names the concatenations
+        # task + output of different datasets coincide ("t1" + "10" == "t11" + "0")
+        tname = lambda k: "t" + "1" * (k + 1)  # noqa: E731
     tasks: list[dict] = []
     for i in range(n):
         nouts = draw(st.sampled_from([1, 1, 1, 1, 2, 2, 3, max_outs, max_outs, 11, 12] if max_outs >= 4 else [1, 1, 1, 2, 3, max_outs]))
